@@ -140,12 +140,21 @@ def bounded(tier, seed, repo_root):
     # accumulated costs beyond 2**16 (the cost matrices are numpy arrays of fixed width; integers are mathematical in the VC
     # generator): one pair whose strings differ by more than 65536 characters with a common character on the 2**16 contour
     huge = [('-' * 65535 + 'b' + '---', 'b')]
+    # ... and around the narrower integer widths (2**7, 2**8, 2**15 totals): two long, mostly unrelated strings that share a few
+    # characters placed where the accumulated cost crosses the boundary
+    for n, m in ((130, 129), (250, 60), (128, 128), (127, 130), (200, 100), (255, 255), (90, 60), (64, 64)):
+        for k in range(3):
+            a = [rnd.choice('abcdefg') for _ in range(n)]
+            b = [rnd.choice('tuvwxyz') for _ in range(m)]
+            for pos in sorted(rnd.sample(range(min(n, m)), k + 1)):
+                a[n - 1 - pos if k == 2 else pos] = b[pos] = '#'       # shared characters (aligned, or mirrored for k == 2)
+            pairs.append((''.join(a), ''.join(b)))
     res = pmap(_check, pairs, repo_root, chunksize=500, job_timeout=60, on_timeout=timeout_failure('C11')) + pmap(_check, huge, repo_root, chunksize=1, job_timeout=700, on_timeout=timeout_failure('C11'))
     pairs = pairs + huge
     fails = [f for fs in res for f in fs]
     return [{
         'name': 'C11.lcs-reference', 'bound': f"all pairs of strings over {{a,b}} up to length {L2} and over {{a,b,c}} up to length {L3} and over {{a, U+20AC, U+03B2}} (non-Latin-1) up to length {4 if tier == 'quick' else 5} "
-        f"({n_ex} pairs, exhaustive) + {len(pairs) - n_ex} seeded longer pairs with repeats and shared prefixes/suffixes over ASCII, Greek, CJK, astral, combining and control characters + 1 pair differing by more than 2**16 characters",
+        f"({n_ex} pairs, exhaustive) + {len(pairs) - n_ex} seeded longer pairs with repeats and shared prefixes/suffixes over ASCII, Greek, CJK, astral, combining and control characters + 24 pairs of long unrelated strings sharing 1-3 characters with totals around 2**7 / 2**8 + 1 pair differing by more than 2**16 characters",
         'evaluations': len(pairs), 'distinct_nontrivial': len({p[:2] for p in pairs if p[0] != p[1]}), 'exhaustive': True,
         'rule': 'pair of strings -> string_edit_distance refined to fix-point: kept characters == LCS length and removed+inserted '
                 '== n+m-2*LCS; non-trivial = the strings differ',
